@@ -249,6 +249,7 @@ type Registry struct {
 	nilPtrTok  int    // token registered for the typed nil *payloadPtr (0: none)
 	NoTypedNil bool   // families whose tokens are not sequential keep to data-carrying payloads
 	RunCtxKind string // kind of the run's context (a callback's own context error must differ from it)
+	MixFlavour bool   // tokens are item*1000+...: take the item into the choice of the error flavour
 }
 
 func NewRegistry() *Registry {
@@ -407,7 +408,11 @@ func (r *Registry) Err(tok int) error {
 		return e
 	}
 	var e error
-	switch tok % 5 {
+	sel := tok % 5
+	if r.MixFlavour {
+		sel = (tok/1000 + tok) % 5 // every flavour occurs at the first attempts of some item
+	}
+	switch sel {
 	case 4:
 		// a failure of the callback's own making that wraps a context error although the run's context is live
 		// (a node-local timeout): it is an ordinary error of the callback
